@@ -29,14 +29,12 @@ def families(tier):
         fam('firstopen2', [('a1', 'c1', 1), ('a2', 'c1', 1)], ['r'], ['c1'], [], False, 1, 0),
         # weekly rotation: file of span 1 open and warm, the clock is in span 2
         fam('rotation2', [('a1', 'c1', 1), ('a2', 'c1', 1)], ['r'], ['c1'], ['c1'], True, 2, 2),
-        fam('rotation1x2', [('a1', 'c1', 2)], ['r'], ['c1'], ['c1'], True, 2, 2),
         # growth: the record of the second counter does not fit into the mapping
         fam('growth2', [('a1', 'c1', 1), ('a2', 'c2', 1)], [], ['c1', 'c2'], ['c1'], True, 1, 0),
-        fam('growth1x2', [('a1', 'c1', 2), ('a2', 'c2', 1)], [], ['c1', 'c2'], ['c1'], True, 1, 0),
-        # registration: two first-time adders of the same cold counter while the file is opened
-        fam('register2', [('a1', 'c1', 1), ('a2', 'c1', 1)], ['r'], ['c1'], [], False, 1, 0),
     ]
     big = [
+        fam('rotation1x2', [('a1', 'c1', 2)], ['r'], ['c1'], ['c1'], True, 2, 2),
+        fam('growth1x2', [('a1', 'c1', 2), ('a2', 'c2', 1)], [], ['c1', 'c2'], ['c1'], True, 1, 0),
         fam('firstopen3', [('a1', 'c1', 1), ('a2', 'c1', 1), ('a3', 'c1', 1)], ['r'], ['c1'], [], False, 1, 0),
         fam('rotation3', [('a1', 'c1', 1), ('a2', 'c1', 1), ('a3', 'c1', 1)], ['r'], ['c1'], ['c1'], True, 2, 2),
         fam('growth3', [('a1', 'c1', 1), ('a2', 'c2', 1), ('a3', 'c1', 1)], [], ['c1', 'c2'], ['c1'], True, 1, 0),
@@ -109,7 +107,7 @@ def run_cfg(f, rid, schedule, finish, seed, trace=True):
 
 
 SAFETY = ['TypeOK', 'UpperBound', 'NoDeadlock', 'NoFault', 'Quiescent', 'Flushed', 'PtrFresh']
-WINDOWS = ['NotW1', 'NotW2', 'NotW3', 'NotW4', 'NotW5', 'NotW6', 'NotW7']
+WINDOWS = ['NotW%d' % i for i in range(1, 22)]
 
 
 def classify(res):
@@ -151,47 +149,56 @@ def run(ctx):
 
     jobs = []
     meta = []
+    PROPS = ['NoFault', 'Quiescent', 'Flushed', 'PtrFresh']
+    WNAMES = ['W_HolderOnClosedMapping', 'W_HalfRegistered', 'W_LockWithReaders', 'W_HavePtrNil', 'W_InvalidateDuringHold', 'W_RefreshLocks',
+              'W_TwoGrowths', 'W_RefreshSeesReaders', 'W_RefreshSeesLocked', 'W_AddSeesReadersNoPtr', 'W_LastReaderUpgrade', 'W_UnlockRaced',
+              'W_ClearExtraRaced', 'W_SetHPNoExtra', 'W_StoreDuringRead', 'W_RotStoreDuringRead', 'W_HeadCasRaced', 'W_NilReader',
+              'W_InvalidateCasRaced', 'W_LookupBeforeOpen', 'W_CloseWhileLocked']
+    oneshot = ['OneShot(i, W) == IF W /\\ TLCGet(i) = 0 THEN TLCSet(i, 1) /\\ FALSE ELSE TRUE',
+               'ASSUME \\A i \\in 1..40 : TLCSet(i, 0)']
+    onames = {}
+    for i, p in enumerate(PROPS):
+        oneshot.append('O_%s == OneShot(%d, ~%s)' % (p, i + 1, p))
+        onames['O_' + p] = p
+    for i, w in enumerate(WNAMES):
+        oneshot.append('O_%s == OneShot(%d, %s)' % (w, i + 10, w))
+        onames['O_' + w] = w
     for f in fams:
         mc = mc_module(f)
+        mcw = mc.replace('====', '\n'.join(oneshot) + '\n====')
         exhaustive = ctx.thorough() or len(f['adders']) + len(f['rot']) <= 3
-        # (1) exhaustive check of the design for this family
-        if exhaustive:
-            jobs.append((('MCCounter',), dict(files={'MCCounter.tla': mc}, cfg_text=mc_cfg(f, invariants=['TypeOK', 'UpperBound', 'NoDeadlock']),
-                                              label='Counter[%s] safety' % f['name'], timeout=3000, workers=4)))
-            meta.append((f, 'safety'))
-        # (2) witness schedules: for every property / race window, TLC's counter-example is a schedule
-        for inv in SAFETY[3:] + WINDOWS:
-            jobs.append((('MCCounter',), dict(files={'MCCounter.tla': mc}, cfg_text=mc_cfg(f, invariants=[inv]),
-                                              label='Counter[%s] %s' % (f['name'], inv), timeout=1500, count=False)))
-            meta.append((f, inv))
+        # (1)+(2) one exhaustive run per family: the safety invariants that must hold in the design, and
+        # one-shot invariants whose first violation (BFS => shortest) is a witness schedule into each
+        # race window / to each property the faithful design still violates (known findings)
+        jobs.append((('MCCounter',), dict(files={'MCCounter.tla': mcw},
+                                          cfg_text=mc_cfg(f, invariants=['TypeOK', 'UpperBound', 'NoDeadlock'] + sorted(onames)),
+                                          label='Counter[%s] exhaustive' % f['name'], timeout=3000, workers=1, extra=['-continue'])))
+        meta.append((f, 'exhaustive'))
         # (3) random walks of the model
-        jobs.append((('MCCounter',), dict(files={'MCCounter.tla': mc}, cfg_text=mc_cfg(f, view=False), simulate={'num': ctx.pick(40, 400), 'file': True},
+        jobs.append((('MCCounter',), dict(files={'MCCounter.tla': mc}, cfg_text=mc_cfg(f, view=False), simulate={'num': ctx.pick(60, 400), 'file': True},
                                           depth=400, label='Counter[%s] simulate' % f['name'], count=False)))
         meta.append((f, 'simulate'))
-    results_tlc = ctx.tlc_many(jobs, par=8)
+    results_tlc = ctx.tlc_many(jobs, par=12)
     for (f, what), r in zip(meta, results_tlc):
-        if what == 'safety':
-            if not r.ok:
-                ctx.warn('model: %s violates %s %s' % (f['name'], r.error, r.error_name))
-            model_results[f['name']] = {'distinct': r.distinct, 'result': r.error_name or 'ok'}
-        elif what == 'simulate':
+        if what == 'simulate':
             for fn in ctx.sim_files(r):
                 states = [s for (_a, _b, s) in tlaval.read_simulate(fn)]
                 add_run(f, schedule_of(states), 'rr', 'simulate')
-        else:
-            inv = what
-            if r.error == 'invariant' and r.trace:
-                sched = schedule_of([s for (_a, s) in r.trace])
-                model_results['%s/%s' % (f['name'], inv)] = 'reachable (%d steps)' % len(sched)
-                for fin in ('rr', 'seq', 'random', 'random'):
-                    add_run(f, sched, fin, inv)
-                for k in range(3):
-                    cut = rng.randrange(max(1, len(sched) // 2), len(sched) + 1)
-                    add_run(f, sched[:cut], 'random', inv + ':prefix')
-            elif r.ok:
-                model_results['%s/%s' % (f['name'], inv)] = 'holds'
-            else:
-                raise Infra('TLC on %s %s: %s\n%s' % (f['name'], inv, r.error, r.out[-1500:]))
+            continue
+        model_results[f['name']] = {'distinct': r.distinct, 'generated': r.generated}
+        for (name, tr) in tlaval.read_all_traces(r.out):
+            if name not in onames:
+                ctx.warn('model: family %s violates %s (the design itself, or the model, is wrong)' % (f['name'], name))
+                model_results['%s/%s' % (f['name'], name)] = 'VIOLATED in the model'
+                continue
+            inv = onames[name]
+            sched = schedule_of([s for (_a, s) in tr])
+            model_results['%s/%s' % (f['name'], inv)] = 'reachable (%d steps)' % len(sched)
+            for fin in ('stick', 'rr', 'seq', 'random'):
+                add_run(f, sched, fin, inv)
+            for k in range(2):
+                cut = rng.randrange(max(1, len(sched) // 2), len(sched) + 1)
+                add_run(f, sched[:cut], 'random', inv + ':prefix')
     for f in fams:
         # (4) schedules chosen by the harness itself (random, and sequential orders)
         for k in range(ctx.pick(60, 600)):
